@@ -5,6 +5,11 @@ HERE = os.path.dirname(os.path.dirname(os.path.abspath(__file__)))
 
 # id -> (engine, category, technique, level text, level note, design ref)
 CHECKS = {
+ "C09": ("ceremony", "exploration",
+   "proptest-generated PRF ceremonies (client and CTAP2 level) against HMAC-SHA-256 built in the harness and a reference validator for malformed requests (reference-model oracle)",
+   "Generated registrations and assertions over five authenticator configurations, verified/unverified users, stores with credentials holding no/gated/both secrets, inputs of any length and every evalByCredential key shape: each PRF result present must equal HMAC(k, salt) computed by the harness for a secret of exactly the credential created/used, with the gated secret only when the UV bit of that ceremony is set and always when verified during an assertion; per-credential inputs override defaults; enabled must equal 'secrets stored'; no capability means no output and no secret; every malformed class must be rejected with the stated error before any check_user/find/save call.",
+   "HMAC and salts are the harness's own code on top of sha2; a missing second output is measured only",
+   "DESIGN.md §4 C09"),
  "C04": ("consent", "exploration",
    "complete enumeration of the finite configuration product on fresh authenticators with scripted user-validation doubles; statement-derived oracle plus a metamorphic pair over store content",
    "All ~4.5k combinations of operation, requested rk/up/uv, verification and presence capability, user-validation outcome (4 results + 3 error codes), pin-auth, store content and exclude list are executed at the authenticator API and (reduced) through Client; success requires the reported presence/verification, UP/UV bits must equal what the double reported, every missing-consent class must fail with the store snapshot unchanged and with the same outcome whether or not a matching credential exists, and the credential shown to check_user must be the one that signs (two matching credentials are stored). The space is finite and is enumerated completely.",
